@@ -114,6 +114,15 @@ Register(n, v) ==
     /\ hist' = Append(hist, [op |-> "register", n |-> n, v |-> v + 10, obs |-> Observation(-1, cache', loads)])
     /\ UNCHANGED <<content, mtime, loads, cacheOn, autoReload, remembered>>
 
+\* the text registered is byte for byte what the cache already holds for the name from a loader: still a registration --
+\* from now on the name means that text, whatever the loaders come to hold
+RegSame(n) ==
+    /\ n \in RegNames /\ cacheOn /\ cache[n].ver \in Vers /\ cache[n].from # 0
+    /\ cache' = [cache EXCEPT ![n] = [ver |-> cache[n].ver, from |-> 0, lastMod |-> clock]]
+    /\ clock' = clock + 1
+    /\ hist' = Append(hist, [op |-> "register", n |-> n, v |-> cache[n].ver, obs |-> Observation(-1, cache', loads)])
+    /\ UNCHANGED <<content, mtime, loads, cacheOn, autoReload, remembered>>
+
 \* registering a compiled template is a registration like any other: it replaces what the name had, whatever time
 \* stamp the compiled form carries (old: 0, new: far in the future); versions 21, 22
 RegCompiled(n, v, old) ==
@@ -191,6 +200,7 @@ Next ==
     /\ \/ \E n \in NamesUsed : Render(n)
        \/ \E n \in NamesUsed : \E v \in Vers : RenderPut(n, v)
        \/ \E n \in RegNames \cap NamesUsed : \E v \in Vers : Register(n, v)
+       \/ \E n \in RegNames \cap NamesUsed : RegSame(n)
        \/ \E n \in RegNames \cap NamesUsed : \E old \in BOOLEAN : RegCompiled(n, 1, old)
        \/ \E a \in RegNames \cap NamesUsed : \E n \in NamesUsed : RegAlias(a, n)
        \/ \E i \in Slots : \E n \in NamesUsed : \E v \in PutVers : Put(i, n, v)
